@@ -4,6 +4,7 @@ import KoordVerif.Model.C11Rounds
 import KoordVerif.Model.C11Decode
 import KoordVerif.Model.C11E2E
 import KoordVerif.Model.C11Metric
+import KoordVerif.Model.C11Containers
 /-
 Driver for C11.  A case is a list of declaration lines followed by one command line.
 
@@ -37,6 +38,9 @@ Driver for C11.  A case is a list of declaration lines followed by one command l
    metric <podId> <queryErr> <window ms> <n> (<age ms> <milli>)*n     the pod's usage series in storage order
  output: `last <podId> none` | `last <podId> <milli>` (CollectPodMetricLast); the pod's hasMetric / used are
          REPLACED by this result for the rest of the case
+   ctrs <podId> <isCpuEvictor> <n> (<kind 0 regular|1 init|2 sidecar init> <mid or -1> <batch or -1>)*n
+       the pod's containers (Model/C11Containers.lean); no output; the pod's reqMid / reqBatch (and, for the cpu
+       evictor, batchReq) are REPLACED by the sums the container loops compute
 -/
 namespace KoordVerif.C11
 open KoordVerif.Proto
@@ -349,6 +353,18 @@ def runCase (lines : List String) : List String :=
                 | none => s!"last {id} none"
                 | some v => s!"last {id} {v}"
               go { a with raws := raws, pods := pods } (out ++ [o]) rest
+            | _ => out ++ ["bad-op"]
+          | "ctrs" =>
+            match xs with
+            | id :: cpu :: n :: cts =>
+              if cts.length ≠ 3 * n.toNat ∨ id < 0 ∨ cts.any (· < -1) then out ++ ["bad-op"] else
+              let cs : List Ctr := (chunks 3 cts).filterMap fun
+                | [k, m, b] => some { kind := k.toNat, mid := m, batch := b }
+                | _ => none
+              let raws := a.raws.map fun rp => if rp.id = id.toNat then rp.withCtrs (cpu ≠ 0) cs else rp
+              let pods := a.pods.map fun p =>
+                if p.id = id.toNat then ((raws.find? fun rp => rp.id = id.toNat).map decodePod).getD p else p
+              go { a with raws := raws, pods := pods } out rest
             | _ => out ++ ["bad-op"]
           | "e2emem" =>
             match runE2EMem a xs with
